@@ -14,416 +14,15 @@
 //! BuiltinUndefined, FrameUnderflow, unknown tuple id, index panic).
 use qverif::run::{Builtins, FrontError, Unit, compile_source};
 use qverif::{Ev, Model, Opts, Rng, catch};
-use quiver_core::bytecode::{Bytecode, Function, Instruction};
-use quiver_core::compatibility::{
-    CompatibilityInput, compute_canonical_tuples, compute_param_compatibility, compute_type_compatibility,
-};
-use quiver_core::executor::{Executor, ProgramUpdate};
+use quiver_core::bytecode::Bytecode;
 use quiver_core::value::Value;
 use quiver_io::NativeEffect;
 use serde_json::json;
 use std::collections::HashMap;
 
 mod cgen;
-
-// ---------------------------------------------------------------------------------------------
-// serialisation for the model
-
-fn instr_token(i: &Instruction) -> String {
-    use Instruction::*;
-    match i {
-        Constant(a) => format!("Constant:{a}"),
-        Pop => "Pop".into(),
-        Duplicate => "Duplicate".into(),
-        Pick(a) => format!("Pick:{a}"),
-        Rotate(a) => format!("Rotate:{a}"),
-        Reset(a) => format!("Reset:{a}"),
-        Load(a) => format!("Load:{a}"),
-        Store => "Store".into(),
-        Tuple(a) => format!("Tuple:{a}"),
-        Get(a) => format!("Get:{a}"),
-        IsType(a) => format!("IsType:{a}"),
-        Jump(a) => format!("Jump:{a}"),
-        JumpIf(a) => format!("JumpIf:{a}"),
-        Call => "Call".into(),
-        TailCall(r) => format!("TailCall:{}", if *r { 1 } else { 0 }),
-        Function(a) => format!("Function:{a}"),
-        Builtin(a) => format!("Builtin:{a}"),
-        Equal(a) => format!("Equal:{a}"),
-        Not => "Not".into(),
-        Spawn => "Spawn".into(),
-        Send => "Send".into(),
-        Self_ => "Self_".into(),
-        Select => "Select".into(),
-        Process(a, b) => format!("Process:{a}:{b}"),
-    }
-}
-
-/// The tables of a program as the checker sees them.
-struct Tables<'a> {
-    constants: usize,
-    tuples: Vec<usize>,
-    types: usize,
-    builtins: usize,
-    functions: &'a [Function],
-}
-
-fn tables_of(bc: &Bytecode) -> Tables<'_> {
-    Tables {
-        constants: bc.constants.len(),
-        tuples: bc.tuples.iter().map(|t| t.fields.len()).collect(),
-        types: bc.types.len(),
-        builtins: bc.builtins.len(),
-        functions: &bc.functions,
-    }
-}
-
-fn prog_lines(t: &Tables) -> Vec<String> {
-    let mut lines = Vec::with_capacity(t.functions.len() + 1);
-    let mut head = format!("(prog (consts {}) (tuples", t.constants);
-    for a in &t.tuples {
-        head.push(' ');
-        head.push_str(&a.to_string());
-    }
-    head.push_str(&format!(") (types {}) (builtins {}))", t.types, t.builtins));
-    lines.push(head);
-    for f in t.functions {
-        let mut s = format!("(fn {}", f.captures);
-        for i in &f.instructions {
-            s.push(' ');
-            s.push_str(&instr_token(i));
-        }
-        s.push(')');
-        lines.push(s);
-    }
-    lines
-}
-
-#[derive(Clone, Copy, Debug, PartialEq)]
-struct Ann {
-    h: usize,
-    l: usize,
-}
-
-fn parse_anns(answer: &str) -> Option<Vec<Vec<Option<Ann>>>> {
-    // "anns (h:l _ ...) (...)"
-    let rest = answer.strip_prefix("anns")?;
-    let mut out = vec![];
-    let mut cur: Option<Vec<Option<Ann>>> = None;
-    let mut tok = String::new();
-    let flush = |tok: &mut String, cur: &mut Option<Vec<Option<Ann>>>| -> Option<()> {
-        if tok.is_empty() {
-            return Some(());
-        }
-        let c = cur.as_mut()?;
-        if tok == "_" {
-            c.push(None);
-        } else {
-            let (h, l) = tok.split_once(':')?;
-            c.push(Some(Ann { h: h.parse().ok()?, l: l.parse().ok()? }));
-        }
-        tok.clear();
-        Some(())
-    };
-    for ch in rest.chars() {
-        match ch {
-            '(' => cur = Some(vec![]),
-            ')' => {
-                flush(&mut tok, &mut cur)?;
-                out.push(cur.take()?);
-            }
-            ' ' => flush(&mut tok, &mut cur)?,
-            c => tok.push(c),
-        }
-    }
-    Some(out)
-}
-
-// ---------------------------------------------------------------------------------------------
-// certification
-
-struct Cert {
-    functions: usize,
-    instructions: usize,
-    /// None = certified; Some((f, pc, reason))
-    reject: Option<(usize, usize, String)>,
-}
-
-fn certify(model: &mut Model, t: &Tables) -> Cert {
-    let mut lines = prog_lines(t);
-    lines.push("(certify)".into());
-    let answers = model.ask_all(&lines);
-    let last = answers.last().cloned().unwrap_or_default();
-    let instructions = t.functions.iter().map(|f| f.instructions.len()).sum();
-    for (i, a) in answers[..answers.len() - 1].iter().enumerate() {
-        if !a.starts_with("ok") {
-            return Cert { functions: t.functions.len(), instructions, reject: Some((i.saturating_sub(1), 0, format!("model driver refused the program line {i}: {a}"))) };
-        }
-    }
-    let reject = if last.starts_with("ok") {
-        None
-    } else if let Some(r) = last.strip_prefix("reject ") {
-        let mut it = r.splitn(3, ' ');
-        let f = it.next().and_then(|x| x.parse().ok()).unwrap_or(0);
-        let pc = it.next().and_then(|x| x.parse().ok()).unwrap_or(0);
-        Some((f, pc, it.next().unwrap_or("").to_string()))
-    } else {
-        Some((0, 0, format!("unexpected model answer: {last}")))
-    };
-    Cert { functions: t.functions.len(), instructions, reject }
-}
-
-fn dump_function(f: &Function) -> Vec<String> {
-    f.instructions.iter().enumerate().map(|(pc, i)| format!("{pc}: {}", instr_token(i))).collect()
-}
-
-// ---------------------------------------------------------------------------------------------
-// real runs with the instruction trace
-
-#[derive(Debug)]
-enum RunEnd {
-    Value,
-    Error(String),
-    Panic(String),
-    Parked,
-    Budget,
-}
-
-type Trace = Vec<(usize, usize, usize, usize)>;
-
-/// `execute_bytecode_sync` with a step budget and the instruction trace switched on. Stops when
-/// the process parks (an action was returned that nobody routes on the sync path).
-fn run_traced(bc: &Bytecode, b: &Builtins, max_slices: usize) -> (RunEnd, Trace) {
-    let Some(entry) = bc.entry else { return (RunEnd::Error("no entry".into()), vec![]) };
-    quiver_core::executor::verif::set_trace(Some(vec![]));
-    let bc2 = bc.clone();
-    let r = catch(move || {
-        let mut ex: Executor<NativeEffect> = Executor::new(b.clone(), false, 0);
-        let input = CompatibilityInput {
-            types: &bc2.types,
-            tuples: &bc2.tuples,
-            functions: &bc2.functions,
-            builtins: &bc2.builtins,
-            resource_names: &bc2.resources,
-        };
-        let type_compatibility = compute_type_compatibility(&input);
-        let canonical_tuples = compute_canonical_tuples(&bc2.tuples);
-        let (fpc, bpc) = compute_param_compatibility(&input);
-        ex.update_program(ProgramUpdate {
-            constants: bc2.constants.clone(),
-            functions: bc2.functions.clone(),
-            tuples: bc2.tuples[2..].to_vec(),
-            types: bc2.types.clone(),
-            builtins: bc2.builtins.clone(),
-            resources: bc2.resources.clone(),
-            type_compatibility,
-            function_param_compatibility: fpc,
-            builtin_param_compatibility: bpc,
-            canonical_tuples,
-        });
-        if let Err(e) = ex.spawn_process(0, Some(entry), vec![], Value::nil(), vec![], false) {
-            return RunEnd::Error(qverif::canon::error_class(&e));
-        }
-        for _ in 0..max_slices {
-            let (did, action) = ex.step(200, 0);
-            let Some(p) = ex.get_process(0) else { return RunEnd::Error("process disappeared".into()) };
-            if let Some(res) = &p.result {
-                return match res {
-                    Ok(_) => RunEnd::Value,
-                    Err(e) => RunEnd::Error(error_detail(e)),
-                };
-            }
-            if action.is_some() || !did {
-                return RunEnd::Parked;
-            }
-        }
-        RunEnd::Budget
-    });
-    let trace = quiver_core::executor::verif::take_trace().unwrap_or_default();
-    quiver_core::executor::verif::set_trace(None);
-    match r {
-        Ok(e) => (e, trace),
-        Err(p) => (RunEnd::Panic(p.lines().next().unwrap_or("").to_string()), trace),
-    }
-}
-
-fn error_detail(e: &quiver_core::Error) -> String {
-    match e {
-        quiver_core::Error::TypeMismatch { expected, .. } if expected == "known tuple type" => "TupleUndefined".into(),
-        other => qverif::canon::error_class(other),
-    }
-}
-
-fn is_structural(class: &str) -> bool {
-    matches!(
-        class,
-        "StackUnderflow" | "VariableUndefined" | "ConstantUndefined" | "FunctionUndefined" | "BuiltinUndefined"
-            | "FrameUnderflow" | "TupleUndefined"
-    )
-}
-
-/// Shadow frame while replaying a trace.
-#[derive(Clone, Debug)]
-struct Shadow {
-    f: usize,
-    base: usize,
-    pc: usize,
-    /// 0 = not evaluating a Select; 1 = Select initialised (sources popped: height is
-    /// ann.height - 1); 2 = a filter function was called from the Select (its verdict will be on
-    /// the stack when it returns: height is ann.height again, counter not incremented)
-    sel: u8,
-}
-
-struct TraceCheck {
-    points: usize,
-    max_depth: usize,
-    /// (index in trace, description)
-    mismatch: Option<(usize, String)>,
-    /// a `Store` executed with different frame-relative locals counts on different visits:
-    /// (function, pc, count seen first, count seen now, trace index)
-    misaligned: Option<(usize, usize, usize, usize, usize)>,
-    stores_checked: usize,
-}
-
-/// Replays the trace against the inferred annotations, reconstructing each frame's entry base
-/// (stack length at function entry minus the argument).
-fn check_trace(functions: &[Function], anns: &[Vec<Option<Ann>>], trace: &Trace) -> TraceCheck {
-    let mut shadow: Vec<Shadow> = vec![];
-    let mut res = TraceCheck { points: 0, max_depth: 0, mismatch: None, misaligned: None, stores_checked: 0 };
-    // slot numbering: the compiler gives the variable bound by a `Store` the index `local_count`
-    // it has at that point; the VM appends at the runtime count. They agree only if every
-    // execution of a given `Store` happens at the same frame-relative count.
-    let mut store_count: HashMap<(usize, usize), usize> = HashMap::new();
-    // pops exhausted frames; returns false if the shadow stack ran out
-    fn settle(shadow: &mut Vec<Shadow>, functions: &[Function]) {
-        while let Some(top) = shadow.last() {
-            if top.pc < functions[top.f].instructions.len() {
-                break;
-            }
-            shadow.pop();
-            if let Some(c) = shadow.last_mut() {
-                if c.sel != 2 {
-                    c.pc += 1;
-                }
-            }
-        }
-    }
-    for (k, &(f, pc, s, l)) in trace.iter().enumerate() {
-        if k == 0 {
-            if s == 0 {
-                res.mismatch = Some((0, "empty stack at process entry".into()));
-                return res;
-            }
-            shadow.push(Shadow { f, base: s - 1, pc: 0, sel: 0 });
-        } else {
-            // the previous point executed the instruction at the top shadow frame
-            let (pf, ppc, _ps, _pl) = trace[k - 1];
-            let pinstr = functions[pf].instructions[ppc];
-            let n = functions[pf].instructions.len() as isize;
-            let target = |off: isize| -> usize {
-                let t = ppc as isize + off + 1;
-                if t < 0 || t > n { usize::MAX } else { t as usize }
-            };
-            match pinstr {
-                Instruction::Call => {
-                    if pc == 0 && s > 0 {
-                        // new frame (a function value was called): its argument is on top
-                        shadow.push(Shadow { f, base: s - 1, pc: 0, sel: 0 });
-                    } else {
-                        // builtin, or a callee with an empty body
-                        shadow.last_mut().unwrap().pc = ppc + 1;
-                        settle(&mut shadow, functions);
-                    }
-                }
-                Instruction::TailCall(_) => {
-                    let base = shadow.last().unwrap().base;
-                    if pc == 0 {
-                        *shadow.last_mut().unwrap() = Shadow { f, base, pc: 0, sel: 0 };
-                    } else {
-                        // tail-called function has an empty body: frame exhausted at once
-                        let top = shadow.last_mut().unwrap();
-                        top.pc = usize::MAX;
-                        let fl = functions[top.f].instructions.len();
-                        top.pc = fl;
-                        settle(&mut shadow, functions);
-                    }
-                }
-                Instruction::Select => {
-                    let top = shadow.last_mut().unwrap();
-                    if f == pf && pc == ppc {
-                        // initialised (or a verdict was consumed) and the Select runs again
-                        top.sel = 1;
-                    } else if pc == 0 && s > 0 {
-                        // a filter function was called on a message
-                        top.sel = 2;
-                        shadow.push(Shadow { f, base: s - 1, pc: 0, sel: 0 });
-                    } else {
-                        top.sel = 0;
-                        top.pc = ppc + 1;
-                        settle(&mut shadow, functions);
-                    }
-                }
-                Instruction::Jump(off) => {
-                    shadow.last_mut().unwrap().pc = target(off);
-                    settle(&mut shadow, functions);
-                }
-                Instruction::JumpIf(off) => {
-                    // either successor; take the one the trace shows
-                    let mut a = shadow.clone();
-                    a.last_mut().unwrap().pc = ppc + 1;
-                    settle(&mut a, functions);
-                    let mut b2 = shadow.clone();
-                    b2.last_mut().unwrap().pc = target(off);
-                    if target(off) != usize::MAX {
-                        settle(&mut b2, functions);
-                    }
-                    let matches = |sh: &Vec<Shadow>| sh.last().map(|t| t.f == f && t.pc == pc).unwrap_or(false);
-                    shadow = if matches(&a) { a } else { b2 };
-                }
-                _ => {
-                    shadow.last_mut().unwrap().pc = ppc + 1;
-                    settle(&mut shadow, functions);
-                }
-            }
-        }
-        res.max_depth = res.max_depth.max(shadow.len());
-        let Some(top) = shadow.last() else {
-            res.mismatch = Some((k, format!("trace continues at f{f} pc{pc} after the reconstructed frame stack emptied")));
-            return res;
-        };
-        if top.f != f || top.pc != pc {
-            res.mismatch = Some((k, format!("control flow: reconstructed frame is at f{} pc{}, executor is at f{f} pc{pc}", top.f, top.pc)));
-            return res;
-        }
-        let Some(Some(a)) = anns.get(f).and_then(|v| v.get(pc)) else {
-            res.mismatch = Some((k, format!("executor reached f{f} pc{pc}, which the inferred annotations mark unreachable")));
-            return res;
-        };
-        let expect_h = if top.sel == 1 { a.h.saturating_sub(1) } else { a.h };
-        if s < top.base || s - top.base != expect_h {
-            res.mismatch = Some((k, format!("height: f{f} pc{pc} stack_len={s} entry_base={} => relative {} but ann.height={} (select phase {})", top.base, s as isize - top.base as isize, a.h, top.sel)));
-            return res;
-        }
-        if l < a.l {
-            res.mismatch = Some((k, format!("locals: f{f} pc{pc} frame-relative locals={l} < ann.locals={}", a.l)));
-            return res;
-        }
-        if matches!(functions[f].instructions[pc], Instruction::Store) {
-            res.stores_checked += 1;
-            match store_count.get(&(f, pc)) {
-                None => {
-                    store_count.insert((f, pc), l);
-                }
-                Some(&first) if first != l && res.misaligned.is_none() => {
-                    res.misaligned = Some((f, pc, first, l, k));
-                }
-                _ => {}
-            }
-        }
-        res.points += 1;
-    }
-    res
-}
+mod shared;
+use shared::*;
 
 // ---------------------------------------------------------------------------------------------
 // merged packaging: a worker handle that swallows commands
@@ -731,6 +330,37 @@ fn main() {
     let b = qverif::run::builtins();
     let model = Model::spawn(opts.model.as_ref().expect("--model"));
     let mut cx = Ctx { b, model, programs: 0, functions: 0, instructions: 0, trace_points: 0, prefixes: vec![] };
+
+    // debugging aid: `c07 --dump FILE.qv` prints the compiled functions, the model's annotations
+    // and the executor's trace of that program
+    if let Some(i) = opts.extra.iter().position(|x| x == "--dump") {
+        let text = std::fs::read_to_string(&opts.extra[i + 1]).expect("read source");
+        match compile_source(&text, &HashMap::new(), &cx.b) {
+            Err(e) => println!("does not compile: {e:?}"),
+            Ok(unit) => {
+                let bc = unit.program.to_bytecode(Some(unit.entry));
+                let t = tables_of(&bc);
+                let c = certify(&mut cx.model, &t);
+                println!("certify: {:?}", c.reject);
+                let anns = parse_anns(&cx.model.ask("(annotations)")).unwrap_or_default();
+                for (fi, f) in bc.functions.iter().enumerate() {
+                    println!("function {fi} (captures {}){}", f.captures, if fi == unit.entry { " [entry]" } else { "" });
+                    for (pc, ins) in f.instructions.iter().enumerate() {
+                        let a = anns.get(fi).and_then(|v| v.get(pc)).cloned().flatten();
+                        println!("  {pc:3}: {:14} {}", instr_token(ins), a.map(|a| format!("h={} l={}", a.h, a.l)).unwrap_or("-".into()));
+                    }
+                }
+                let (end, trace) = run_traced(&bc, &cx.b, 400);
+                println!("run: {end:?}; {} trace points", trace.len());
+                for (f, pc, s, l) in trace.iter().take(400) {
+                    println!("  f{f} pc{pc} stack={s} locals={l} {}", instr_token(&bc.functions[*f].instructions[*pc]));
+                }
+                let tc = check_trace(&bc.functions, &anns, &trace);
+                println!("trace check: mismatch={:?} misaligned={:?}", tc.mismatch, tc.misaligned);
+            }
+        }
+        std::process::exit(0);
+    }
 
     let mut sources = regression_sources();
     let n_regress = sources.len();
